@@ -168,8 +168,8 @@ func TestC10(t *testing.T) {
 			c.Src = fmt.Sprintf("<print %s-family, prefix kind %d, %d terms>", c.ScOp, c.Prefix, c.Scale)
 		} else {
 			p, feat := gen.GenProg(t, cfgC10(t))
-			if gen.Chance(t, 2, "manylocals") {
-				p = gen.ManyLocalsProg(gen.Pick(t, "nlocals", []int{239, 240, 241, 242, 300, 1000, 1023}), gen.Bool(t, "inblock"))
+			if gen.Chance(t, 3, "special") {
+				p, _ = gen.SpecialProg(t)
 			}
 			if gen.Chance(t, 30, "plant") {
 				c.Plant = gen.PlantCollisions(t, p)
